@@ -250,7 +250,25 @@ impl Property for C01 {
         if thorough { 150_000 } else { 3_000 }
     }
     fn run(&self, ctx: &mut Ctx) -> Result<(), Violation> {
-        let gen = GenCfg::standard(ctx.thorough);
+        let mut gen = GenCfg::standard(ctx.thorough);
+        // size-dependent paths: every 16th run carries payloads beyond 64 KiB; in thorough every
+        // 40th run has a threshold above 256 (needs as many clients)
+        if ctx.ch.chance(1, 16) {
+            gen.meas_lens = vec![11, 70_000];
+            gen.aux_kinds = vec![-1, 4, 66_000];
+            gen.max_clients_total = 24;
+            gen.thresholds = vec![1, 2, 3];
+            ctx.stats.probe("runs_with_payloads_over_64KiB");
+        } else if ctx.thorough && ctx.ch.chance(1, 40) {
+            gen.thresholds = vec![257, 300];
+            gen.max_groups = 1;
+            gen.max_clients_total = 320;
+            gen.count_offsets = vec![0, 1, 2];
+            gen.meas_lens = vec![11];
+            gen.aux_kinds = vec![-1, 4];
+            gen.sources = vec![0, 1];
+            ctx.stats.probe("runs_with_threshold_over_256");
+        }
         let mut w = WorldA::build(ctx, gen, netcfg(), true);
         let mut o = Oracle::default();
         w.run(ctx, &mut o)
